@@ -229,20 +229,19 @@ theorem alias_unknown_is_error (L : AliasLimits) (t : LNode) (l0 l1 l2 l3 : Loc)
   rw [hexp] at hr
   cases hr
 
-/-- (T) anchor_mark_transparent (partial: excludes anchored empty quoted scalars, see the finding
-below): erasing every anchor mark of an alias-free document changes the delivered events only by
-erasing the ids. -/
-theorem anchor_mark_transparent_partial (t : LNode) (haf : aliasFree t = true)
-    (hq : noAnchoredEmptyQuoted t = true) (σ σ' : Tab) (opn opn' : List Nat) (r r' : Exp)
+/-- (T) anchor_mark_transparent: erasing every anchor mark of an alias-free document changes the
+delivered events only by erasing the ids — attaching an anchor never changes a node's own value.
+(Full statement; before the repair recorded as C02-anchored-empty-quoted it needed the exclusion
+"no anchored empty quoted scalar".) -/
+theorem anchor_mark_transparent (t : LNode) (haf : aliasFree t = true)
+    (σ σ' : Tab) (opn opn' : List Nat) (r r' : Exp)
     (h1 : expand σ opn t = .ok r) (h2 : expand σ' opn' (eraseAnchors t) = .ok r') :
     r'.evs = r.evs.map Ev.eraseAnchor :=
-  Lemmas.C02.erase_node t haf hq σ σ' opn opn' r r' h1 h2
+  Lemmas.C02.erase_node t haf σ σ' opn opn' r r' h1 h2
 
-/-- (F) the full statement "attaching an anchor never changes the node's own value" is false of the
-model and of the code: an anchored empty double-quoted scalar is delivered as a plain (null-like)
-scalar. Witness `&a ""` vs `""`. -/
-theorem anchored_empty_quoted_changes_value :
-    ((expand [] [] (.scalar [] .double 1 none 7)).toOption.map (·.evs.map Ev.eraseAnchor)) ≠
+/-- the former witness of the defect now behaves: `&a ""` and `""` deliver the same scalar modulo the id -/
+example :
+    ((expand [] [] (.scalar [] .double 1 none 7)).toOption.map (·.evs.map Ev.eraseAnchor)) =
     ((expand [] [] (eraseAnchors (.scalar [] .double 1 none 7))).toOption.map (·.evs)) := by
   decide
 
@@ -316,8 +315,7 @@ example : noFoldedIndent demo = true := by decide
 #print axioms pump_errors_classified_partial
 #print axioms pump_errors_classified_counterexample
 #print axioms alias_unknown_is_error
-#print axioms anchor_mark_transparent_partial
-#print axioms anchored_empty_quoted_changes_value
+#print axioms anchor_mark_transparent
 #print axioms inject_len_le_one
 #print axioms peek_next_coherent
 #print axioms alias_expansion_is_buffer
